@@ -94,23 +94,14 @@ Theorem c10_record_le_8k :
        accounted_size (bound_addrs p) <= MaxPeerRecordSize) /\
     (accounted_size (bound_addrs p) <= MaxPeerRecordSize \/ p_addrs (bound_addrs p) = []) /\
     (0 <= b_len (p_id p) -> proto_size_peer (bound_addrs p) <= accounted_size (bound_addrs p)).
-Proof.
-  intro p. split; [|split].
-  - intros Hid Hc. exact (bound_addrs_size_guarded p (base_size_fits _ _ Hid Hc)).
-  - exact (bound_addrs_size p).
-  - intro Hid. exact (proto_size_le_accounted (bound_addrs p) Hid).
-Qed.
+Proof. exact bound_addrs_le_8k. Qed.
 Print Assumptions c10_record_le_8k.
 
 (* the literal claim "every record is cut to 8 KiB" needs the guard on the id: a
    record whose id alone is larger keeps its id (and no address) *)
 Theorem c10_record_le_8k_unguarded_refuted :
   exists p, accounted_size (bound_addrs p) > MaxPeerRecordSize /\ p_addrs (bound_addrs p) = [].
-Proof.
-  exists {| p_id := {| b_tag := 1%N; b_len := 9000 |};
-            p_addrs := [{| a_tag := 2%N; a_len := 8; a_ok := true |}]; p_conn := 0 |}.
-  split; vm_compute; reflexivity.
-Qed.
+Proof. exact bound_addrs_huge_id. Qed.
 Print Assumptions c10_record_le_8k_unguarded_refuted.
 
 (* 4. At most 2K closer peers of one response enter a lookup, all taken from the
